@@ -421,7 +421,16 @@ impl Monitor for LiqQuoteMon {
             acc.count("liquidity_quotes_transfer_fee");
         }
         if inc {
-            let q = quiet_catch(|| sdk::increase_liquidity_quote(l.into(), slippage, pre.sqrt_price.into(), pos.tick_lower_index, pos.tick_upper_index, tfa, tfb)).unwrap_or(Err("sdk panicked"));
+            let mut q = quiet_catch(|| sdk::increase_liquidity_quote(l.into(), slippage, pre.sqrt_price.into(), pos.tick_lower_index, pos.tick_upper_index, tfa, tfb)).unwrap_or(Err("sdk panicked"));
+            // a maximum of estimate x (1 + slippage) that does not fit u64 cannot be reported: not a failure of the
+            // estimate - the quote is taken again without slippage and judged on that
+            if q.is_err() && slippage > 0 {
+                let q0 = quiet_catch(|| sdk::increase_liquidity_quote(l.into(), 0, pre.sqrt_price.into(), pos.tick_lower_index, pos.tick_upper_index, tfa, tfb)).unwrap_or(Err("sdk panicked"));
+                if q0.is_ok() {
+                    acc.count("liquidity_quote_maximum_unrepresentable_with_slippage");
+                    q = q0;
+                }
+            }
             match q {
                 Err(e) => fail(acc, "sdk_fails_where_program_succeeds", format!("program deposited ({}, {}); sdk error {e}", -d(&oa), -d(&ob))),
                 Ok(q) => {
